@@ -4,6 +4,7 @@ import (
 	"errors"
 	"fmt"
 	"math/rand/v2"
+	"strings"
 	"sync"
 	"time"
 
@@ -365,7 +366,7 @@ func (c *Client) atPhase(op string, phase string) {
 	s.mu.Lock()
 	var hitb *breakpoint
 	for _, b := range s.breaks {
-		if !b.armed || b.isHit || b.Client != c.name || b.Op != op || b.Phase != phase {
+		if !b.armed || b.isHit || b.Client != c.name || !opMatches(b.Op, op) || b.Phase != phase {
 			continue
 		}
 		b.seen++
@@ -794,4 +795,21 @@ func (s *Store) Calls() int {
 	s.mu.Lock()
 	defer s.mu.Unlock()
 	return s.calls
+}
+
+// KnownLogs is the catalogue of the library's log messages (filled by the generators).
+var KnownLogs = map[string]bool{}
+
+// opMatches: exact, "log:*" (any log line) or "log:?new" (a log line whose message is
+// not in the catalogue: one that a change to the library has introduced).
+func opMatches(pat, op string) bool {
+	switch pat {
+	case op:
+		return true
+	case "log:*":
+		return strings.HasPrefix(op, "log:")
+	case "log:?new":
+		return strings.HasPrefix(op, "log:") && !KnownLogs[op[4:]]
+	}
+	return false
 }
